@@ -4,7 +4,7 @@
 From Coq Require Import ZArith List Bool Arith Lia.
 Import ListNotations.
 From Mds Require Import Gen.StreeNode Gen.CursorIdx Gen.CursorTree Stree.StreeModel Stree.StreeSpec
-  Stree.CursorModel Stree.CursorSpec.
+  Stree.StreeProofsSet Stree.CursorModel Stree.CursorSpec.
 Local Open Scope Z_scope.
 
 Definition opp (d : dir) : dir := match d with L => R | R => L end.
@@ -623,6 +623,275 @@ Proof.
     destruct (IH t c' Hw') as [cs [Hr [Hall Hf]]].
     exists (c' :: cs). cbn [run]. rewrite Hs. cbn [bind]. rewrite Hr. cbn [bind].
     split; [reflexivity|]. split; [constructor; assumption|]. cbn. split; assumption.
+Qed.
+
+(* ------------------------------------------------------------------ observers *)
+
+Variable zero : T.
+
+Lemma root_range : forall p (t : tree), is_node (subtree t p) = true ->
+  is_root (cnt t) (mkPos (out L t p) (posn L t p) (out L t p + cnt (subtree t p))) =
+  match p with [] => true | _ => false end.
+Proof.
+  intros p t H. unfold is_root. cbn [lo hi]. destruct p as [|e p'].
+  - cbn. rewrite Nat.eqb_refl. reflexivity.
+  - assert (Ht : is_node t = true).
+    { destruct t; auto. rewrite subtree_leaf in H. discriminate. }
+    pose proof (cnt_child_lt e t Ht) as Hlt.
+    pose proof (cnt_subtree_le p' (child e t)) as Hle. cbn [subtree] in H |- *.
+    apply andb_false_iff.
+    destruct (Nat.eqb_spec (out L t (e :: p')) 0) as [E0|]; [right|left; reflexivity].
+    apply Nat.eqb_neq. lia.
+Qed.
+
+Lemma has_parent_at : forall p, has_parent (CAt p) = match p with [] => false | _ => true end.
+Proof.
+  intros p. unfold has_parent, has_parent_res. rewrite valid_at. cbn [clen andb].
+  destruct p as [|e p']; [reflexivity|]. rewrite plen_eq. cbn [length].
+  apply Z.gtb_lt. lia.
+Qed.
+
+Lemma invalid_observe : forall (t : tree) c, valid c = false ->
+  observe zero t c = Ok (mkObs false zero false false false false false []).
+Proof.
+  intros t c H. destruct (invalid_cases c H); subst c; reflexivity.
+Qed.
+
+Lemma nth_error_mid : forall (A : Type) (a b : list A) x c, nth_error (a ++ (b ++ x :: c)) (length a + length b) = Some x.
+Proof.
+  intros. rewrite nth_error_app2 by lia. replace (length a + length b - length a)%nat with (length b) by lia.
+  rewrite nth_error_app2 by lia. rewrite Nat.sub_diag. reflexivity.
+Qed.
+
+Theorem observe_spec : forall (t : tree) c, wf t c ->
+  exists o, observe zero t c = Ok o /\ obs_spec zero (inorder t) (abs t c) o.
+Proof.
+  intros t c Hwf. destruct c as [| |p].
+  - eexists. split; [apply invalid_observe; reflexivity|]. cbn. repeat split; reflexivity.
+  - eexists. split; [apply invalid_observe; reflexivity|]. cbn. repeat split; reflexivity.
+  - simpl in Hwf. pose proof (posn_total t p Hwf) as Htot.
+    destruct (subtree t p) as [|l x r] eqn:E; try discriminate.
+    unfold observe. rewrite (key_eq zero t p l x r E). cbn [bind].
+    assert (Hwf' : is_node (subtree t p) = true) by (rewrite E; reflexivity).
+    destruct (next_advance t p Hwf') as [_ Hn]. destruct (prev_advance t p Hwf') as [_ Hp].
+    rewrite Hn, Hp. cbn [bind].
+    unfold has_left, has_right.
+    rewrite (has_child_eq L has_left_res has_left_idx t p (fun _ => eq_refl) Hwf').
+    rewrite (has_child_eq R has_right_res has_right_idx t p (fun _ => eq_refl) Hwf').
+    cbn [bind]. rewrite cinorder_all_eq. cbn [bind].
+    eexists. split; [reflexivity|].
+    cbn [abs obs_spec o_valid o_key o_has_next o_has_prev o_has_left o_has_right o_has_parent o_inorder ix lo hi].
+    fold (cnt t).
+    split; [apply valid_at|].
+    split.
+    { unfold posn. rewrite E. cbn [child]. rewrite (zipper p t), E. cbn [inorder].
+      rewrite <- pre_length. unfold cnt. rewrite <- app_assoc. apply nth_error_mid. }
+    split.
+    { pose proof (advance_spec R t p Hwf') as Ha. destruct (advance R t p) as [| |p'].
+      - cbn [is_at]. symmetry. apply ltb_false. lia.
+      - cbn [is_at]. symmetry. apply ltb_false. lia.
+      - destruct Ha as [Hw' Hp']. cbn [opp] in Hp'. pose proof (posn_total t p' Hw').
+        cbn [is_at]. symmetry. apply ltb_true. lia. }
+    split.
+    { pose proof (advance_spec L t p Hwf') as Ha. destruct (advance L t p) as [| |p'].
+      - cbn [is_at]. symmetry. apply ltb_false. lia.
+      - cbn [is_at]. symmetry. apply ltb_false. lia.
+      - destruct Ha as [Hw' Hp']. cbn [opp] in Hp'. pose proof (posn_total t p' Hw').
+        cbn [is_at]. symmetry. apply ltb_true. lia. }
+    split.
+    { unfold has_left_res, posn. rewrite E. cbn [child andb].
+      destruct (is_node l) eqn:El.
+      - symmetry. apply ltb_true. assert (cnt l <> 0)%nat by (intro H0; apply cnt_leaf_iff in H0; congruence). lia.
+      - symmetry. apply ltb_false. apply cnt_leaf_iff in El. lia. }
+    split.
+    { unfold has_right_res, posn. rewrite E. cbn [child andb]. rewrite cnt_node.
+      destruct (is_node r) eqn:Er.
+      - symmetry. apply ltb_true. assert (cnt r <> 0)%nat by (intro H0; apply cnt_leaf_iff in H0; congruence). lia.
+      - symmetry. apply ltb_false. apply cnt_leaf_iff in Er. lia. }
+    split.
+    { rewrite (root_range p t Hwf'). rewrite has_parent_at. destruct p; reflexivity. }
+    { rewrite (zipper p t) at 1. rewrite <- pre_length.
+      replace (length (pre t p) + cnt (subtree t p) - length (pre t p))%nat with (length (inorder (subtree t p)))
+        by (unfold cnt; lia).
+      rewrite skipn_app, skipn_all, Nat.sub_diag. cbn [skipn app].
+      rewrite firstn_app, firstn_all, Nat.sub_diag. cbn [firstn]. rewrite app_nil_r. reflexivity. }
+Qed.
+
+(* ------------------------------------------------------------------ invalid and nil cursors, Clone *)
+
+Theorem invalid_identity : forall (t : tree) c m, valid c = false ->
+  step t c m = Ok c /\ clone c = c /\ observe zero t c = Ok (mkObs false zero false false false false false []).
+Proof.
+  intros t c m H. split; [apply invalid_step; exact H|]. split; [|apply invalid_observe; exact H].
+  unfold clone. rewrite H. reflexivity.
+Qed.
+
+Lemma clone_same : forall c, clone c = c.
+Proof. intros [| |p]; unfold clone; [reflexivity|reflexivity|]. rewrite valid_at. reflexivity. Qed.
+
+(* ------------------------------------------------------------------ Tree.Root *)
+
+Theorem root_spec : forall t : tree,
+  wf t (tree_root t) /\
+  match inorder t with
+  | [] => tree_root t = CNil
+  | _ :: _ => exists b, abs t (tree_root t) = Some b /\ lo b = 0%nat /\ hi b = length (inorder t)
+  end.
+Proof.
+  intros [|l x r].
+  - split; [exact I|reflexivity].
+  - split; [reflexivity|]. destruct (inorder (Node l x r)) eqn:E.
+    + apply (f_equal (@length T)) in E. fold (cnt (Node l x r)) in E. rewrite cnt_node in E. cbn in E. lia.
+    + rewrite <- E. eexists. split; [reflexivity|]. split; reflexivity.
+Qed.
+
+(* ------------------------------------------------------------------ Tree.Cursor *)
+
+Section TreeCursor.
+Variable cmp : T -> T -> Z.
+Hypothesis HP : total_preorder cmp.
+
+Lemma path_spec : forall k (t : tree), sorted cmp (inorder t) -> is_node t = true ->
+  is_node (subtree t (path_dirs cmp k t)) = true /\
+  nth_error (path_to cmp k t) (length (path_dirs cmp k t)) = Some (subtree t (path_dirs cmp k t)) /\
+  length (path_to cmp k t) = S (length (path_dirs cmp k t)) /\
+  match subtree t (path_dirs cmp k t) with
+  | Node _ x _ => if cmp k x =? 0 then s_get cmp k (inorder t) = Some x else s_get cmp k (inorder t) = None
+  | Leaf => False
+  end.
+Proof.
+  intros k t. induction t as [|l IHl x r IHr]; intros St Hn; try discriminate.
+  cbn [inorder] in St. destruct (StreeProofsSet.sorted_app_inv T cmp _ _ _ St) as (Sl & Sr & Al & Ar).
+  cbn [path_dirs path_to inorder]. unfold path_lt, path_gt.
+  pose proof (StreeProofsSet.flip T cmp HP k x) as FL.
+  destruct (Z.ltb_spec (cmp k x) 0) as [Lt|Ge].
+  - (* k < x *)
+    assert (Hget : s_get cmp k (inorder l ++ x :: inorder r) = s_get cmp k (inorder l))
+      by (apply (StreeProofsSet.s_get_app_lt T cmp HP); assumption).
+    destruct l as [|ll lx lr].
+    + cbn [path_to subtree length nth_error]. repeat split; auto.
+      destruct (Z.eqb_spec (cmp k x) 0); [lia|]. rewrite Hget. reflexivity.
+    + destruct (IHl Sl eq_refl) as (H1 & H2 & H3 & H4).
+      cbn [subtree child length nth_error]. repeat split; auto.
+      destruct (subtree (Node ll lx lr) (path_dirs cmp k (Node ll lx lr))) as [|sl sx sr]; [exact H4|].
+      rewrite Hget. exact H4.
+  - destruct (Z.gtb_spec (cmp k x) 0) as [Gt|Le].
+    + (* k > x *)
+      assert (Hget : s_get cmp k (inorder l ++ x :: inorder r) = s_get cmp k (inorder r)).
+      { rewrite (StreeProofsSet.s_get_app_ge T cmp HP k (inorder l) x (inorder r) Al) by lia.
+        unfold s_get. cbn [find]. destruct (Z.eqb_spec (cmp k x) 0); [lia|reflexivity]. }
+      destruct r as [|rl rx rr].
+      * cbn [path_to subtree length nth_error]. repeat split; auto.
+        destruct (Z.eqb_spec (cmp k x) 0); [lia|]. rewrite Hget. reflexivity.
+      * destruct (IHr Sr eq_refl) as (H1 & H2 & H3 & H4).
+        cbn [subtree child length nth_error]. repeat split; auto.
+        destruct (subtree (Node rl rx rr) (path_dirs cmp k (Node rl rx rr))) as [|sl sx sr]; [exact H4|].
+        rewrite Hget. exact H4.
+    + (* k == x *)
+      assert (E0 : cmp k x = 0) by lia.
+      cbn [subtree length nth_error]. repeat split; auto.
+      destruct (Z.eqb_spec (cmp k x) 0); [|lia].
+      rewrite (StreeProofsSet.s_get_app_ge T cmp HP k (inorder l) x (inorder r) Al) by lia.
+      unfold s_get. cbn [find]. destruct (Z.eqb_spec (cmp k x) 0); [reflexivity|lia].
+Qed.
+
+(* Cursor(k) is valid exactly when the tree holds a key equivalent to k (Get succeeds), and then
+   it sits, inside the tree, on that stored representative; otherwise it is the nil cursor. *)
+Theorem tree_cursor_spec : forall k (t : tree), sorted cmp (inorder t) ->
+  exists c, tree_cursor cmp t k = Ok c /\ wf t c /\
+    match s_get cmp k (inorder t) with
+    | Some x => valid c = true /\ key zero t c = Ok x
+    | None => c = CNil
+    end.
+Proof.
+  intros k t St. destruct t as [|l x r].
+  - exists CNil. repeat split; reflexivity.
+  - destruct (path_spec k (Node l x r) St eq_refl) as (H1 & H2 & H3 & H4).
+    unfold tree_cursor. rewrite H3.
+    replace (Z.of_nat (S (length (path_dirs cmp k (Node l x r)))) =? 0) with false
+      by (symmetry; apply Z.eqb_neq; lia).
+    unfold tcur_last_idx.
+    replace (Z.of_nat (S (length (path_dirs cmp k (Node l x r)))) - 1 <? 0) with false
+      by (symmetry; apply Z.ltb_ge; lia).
+    replace (Z.to_nat (Z.of_nat (S (length (path_dirs cmp k (Node l x r)))) - 1))
+      with (length (path_dirs cmp k (Node l x r))) by lia.
+    rewrite H2.
+    destruct (subtree (Node l x r) (path_dirs cmp k (Node l x r))) as [|sl sx sr] eqn:E; [contradiction|].
+    cbn [bind]. unfold tcur_reject.
+    replace (Z.of_nat (S (length (path_dirs cmp k (Node l x r)))) =? 0) with false
+      by (symmetry; apply Z.eqb_neq; lia).
+    cbn [orb].
+    pose proof (StreeProofsSet.flip T cmp HP k sx) as FL.
+    destruct (Z.eqb_spec (cmp k sx) 0) as [E0|N0].
+    + replace (cmp sx k =? 0) with true by (symmetry; apply Z.eqb_eq; lia). cbn [negb].
+      eexists. split; [reflexivity|]. split; [cbn [wf]; rewrite E; reflexivity|].
+      rewrite H4. split; [apply valid_at|]. apply (key_eq zero _ _ sl sx sr E).
+    + replace (cmp sx k =? 0) with false by (symmetry; apply Z.eqb_neq; lia). cbn [negb].
+      exists CNil. split; [reflexivity|]. split; [exact I|]. rewrite H4. reflexivity.
+Qed.
+
+(* everything under Left is smaller, everything under Right larger than the cursor's key *)
+Theorem children_ordered : forall (t : tree) p l x r, sorted cmp (inorder t) -> subtree t p = Node l x r ->
+  (forall y, In y (inorder (subtree t (p ++ [L]))) -> cmp y x < 0) /\
+  (forall y, In y (inorder (subtree t (p ++ [R]))) -> cmp x y < 0).
+Proof.
+  intros t p l x r St E. rewrite !subtree_app, E. cbn [subtree child].
+  rewrite (zipper p t), E in St. cbn [inorder] in St.
+  assert (S1 : sorted cmp (inorder l ++ x :: inorder r)).
+  { clear E. revert St. generalize (pre t p) as a. generalize (post t p) as b. generalize (inorder l ++ x :: inorder r) as m.
+    intros m b a. induction a as [|y a IH]; cbn [app sorted].
+    - induction m as [|z m IHm]; cbn [app sorted]; auto.
+      intros [Hz Hs]. split; [|apply IHm; exact Hs]. intros w Hw. apply Hz. apply in_or_app. left. exact Hw.
+    - intros [_ Hs]. apply IH. exact Hs. }
+  destruct (StreeProofsSet.sorted_app_inv T cmp _ _ _ S1) as (_ & _ & Al & Ar). split; assumption.
+Qed.
+
+(* the same through the operations: whatever Inorder lists after Left (Right) is smaller (larger)
+   than the key the cursor had *)
+Theorem left_right_ordered : forall (t : tree) c x, sorted cmp (inorder t) -> wf t c -> valid c = true ->
+  key zero t c = Ok x ->
+  exists cl cr ysl ysr,
+    left t c = Ok cl /\ right t c = Ok cr /\ wf t cl /\ wf t cr /\
+    cinorder_all t cl = Ok ysl /\ cinorder_all t cr = Ok ysr /\
+    (forall y, In y ysl -> cmp y x < 0) /\ (forall y, In y ysr -> cmp x y < 0).
+Proof.
+  intros t c x St Hwf Hv Hk. destruct c as [| |p]; try discriminate.
+  cbn [wf] in Hwf. destruct (subtree t p) as [|l x' r] eqn:E; try discriminate.
+  rewrite (key_eq zero t p l x' r E) in Hk. inversion Hk; subst x'. clear Hk.
+  assert (Hn : is_node (subtree t p) = true) by (rewrite E; reflexivity).
+  destruct (children_ordered t p l x r St E) as [Ol Or].
+  unfold left, right.
+  rewrite (go_child_eq L left_idx t p (fun _ => eq_refl) Hn), (go_child_eq R right_idx t p (fun _ => eq_refl) Hn).
+  rewrite E. cbn [child].
+  exists (if is_node l then CAt (p ++ [L]) else CEmpty), (if is_node r then CAt (p ++ [R]) else CEmpty).
+  exists (if is_node l then inorder (subtree t (p ++ [L])) else []),
+         (if is_node r then inorder (subtree t (p ++ [R])) else []).
+  split; [reflexivity|]. split; [reflexivity|].
+  split. { destruct (is_node l) eqn:El; [|exact I]. cbn [wf]. rewrite subtree_app, E. exact El. }
+  split. { destruct (is_node r) eqn:Er; [|exact I]. cbn [wf]. rewrite subtree_app, E. exact Er. }
+  split. { destruct (is_node l); [apply cinorder_all_eq|reflexivity]. }
+  split. { destruct (is_node r); [apply cinorder_all_eq|reflexivity]. }
+  split.
+  - destruct (is_node l); [exact Ol|intros y []].
+  - destruct (is_node r); [exact Or|intros y []].
+Qed.
+
+End TreeCursor.
+
+(* a whole history, with what every observer answers after the start and after every move *)
+Definition observed (t : tree) (c : cursor) : Prop :=
+  wf t c /\ exists o, observe zero t c = Ok o /\ obs_spec zero (inorder t) (abs t c) o.
+
+Theorem history_spec : forall (t : tree) c ms, wf t c ->
+  exists cs, run t c ms = Ok cs /\
+             follows (length (inorder t)) (abs t c) ms (map (abs t) cs) /\
+             Forall (observed t) (c :: cs).
+Proof.
+  intros t c ms Hwf. destruct (run_spec ms t c Hwf) as [cs [Hr [Hall Hf]]].
+  exists cs. split; [exact Hr|]. split; [exact Hf|].
+  constructor.
+  - split; [exact Hwf|apply observe_spec; exact Hwf].
+  - eapply Forall_impl; [|exact Hall]. intros c' Hc'. split; [exact Hc'|apply observe_spec; exact Hc'].
 Qed.
 
 End CursorProofs.
